@@ -28,6 +28,7 @@ type Ctx struct {
 	uninterp   map[string]bool
 	recursive  map[string]bool
 	guards     map[string][]*GuardDecl
+	shared     map[string]*SharedDecl
 	ctors      map[string]bool
 	ghostFiles map[string]bool
 	decls      map[types.Object]*ast.FuncDecl
@@ -48,7 +49,7 @@ func loadCtx(repoDir string, patterns []string) (*Ctx, error) {
 		return nil, err
 	}
 	c := &Ctx{pkgs: map[string]*packages.Package{}, contracts: map[string]map[string]*Contract{}, externs: map[string]*Contract{},
-		uninterp: map[string]bool{}, recursive: map[string]bool{}, guards: map[string][]*GuardDecl{}, ctors: map[string]bool{}, ghostFiles: map[string]bool{},
+		uninterp: map[string]bool{}, recursive: map[string]bool{}, guards: map[string][]*GuardDecl{}, shared: map[string]*SharedDecl{}, ctors: map[string]bool{}, ghostFiles: map[string]bool{},
 		decls: map[types.Object]*ast.FuncDecl{}, declPkg: map[types.Object]*packages.Package{}, files: map[string]*ast.File{},
 		sentinels: map[string]int{}, hwMemo: map[*ssa.Function]map[string]types.Type{}, funcsByKey: map[string]*ssa.Function{}, repoDir: repoDir}
 	c.roots = pkgs
@@ -291,6 +292,16 @@ func (c *Ctx) guardOf(t types.Type, field string) string {
 		}
 	}
 	return ""
+}
+
+// guardOwner: fnName runs on the goroutine that owns all writes of this guarded field.
+func (c *Ctx) guardOwner(t types.Type, field, fnName string) bool {
+	for _, g := range c.guardDecls(t) {
+		if g.Fields[field] && g.Owners[fnName] {
+			return true
+		}
+	}
+	return false
 }
 
 func (c *Ctx) guardedFields(t types.Type, mutex string) map[string]bool {
